@@ -280,15 +280,32 @@ def run_check(pid, tier):
     for v in res.viols:
         v["sub"] = re.split(r"[:\[( ]", v["msg"], 1)[0][:63]
         classes.setdefault((v["job"]["name"], v["op"], v["kf"], v["sub"]), []).append(v)
-    for key in sorted(classes):
+    # replay-before-report, all classes in parallel (a replay is a fresh process incl. harness set-up)
+    confirmed_of = {}
+
+    def confirm(key):
         vs = classes[key]
         job = vs[0]["job"]
-        confirmed = None
         for v in vs[:2]:
             st, so, se = replay_case(exes[job["name"]], job, "%s %s" % (v["op"], v["args"].replace(",", " ")))
             if st in ("violation", "crash", "hang"):
-                confirmed = v
-                break
+                confirmed_of[key] = v
+                return
+        confirmed_of[key] = None
+    psem = threading.Semaphore(JOBS)
+
+    def confirm_l(key):
+        with psem:
+            confirm(key)
+    cths = [threading.Thread(target=confirm_l, args=(k,)) for k in classes]
+    for t in cths:
+        t.start()
+    for t in cths:
+        t.join()
+    for key in sorted(classes):
+        vs = classes[key]
+        job = vs[0]["job"]
+        confirmed = confirmed_of.get(key)
         if confirmed is None:
             res.errors.append("violation did not reproduce on replay: %s %s %s" % (key, vs[0]["args"], vs[0]["msg"]))
             continue
